@@ -7,14 +7,7 @@ package types
 //@ import big "math/big"
 //@ import common "github.com/ethereum/go-ethereum/common"
 
-// Eip155ChainId is a big.Int by value: one mathematical number.
-//@ opaque type Eip155ChainId
-//@ ghost func chainIdVal(id Eip155ChainId) int
-//@ func (m Eip155ChainId) BigInt() *big.Int
-//@   assumed
-//@   modifies nothing
-//@   ensures result != nil && fresh(result) && bigval[result] == chainIdVal(m)
-//@   panics never
+// (Eip155ChainId / BigInt / chainIdVal: /verif/prelude/44_statedb_evm_types.spec)
 
 // utils.go IsEmptyCodeHash: zero hash or keccak256(nil) (EmptyCodeHash); isEmptyCodeHash: prelude/31_geth_vm.spec
 //@ func IsEmptyCodeHash(codeHash common.Hash) bool
